@@ -156,6 +156,8 @@ func runC18(c *fw.Ctx) {
 		// one float close to the end of the float64 range next to small numbers (sum and mean stay finite in every order)
 		{1e308, 4}, {4, 1e308}, {1.7e308, 1, 2}, {-1.7e308, 3}, {1e308, 0, 0, 0}, {math.MaxFloat64, 1, -1}, {2, 8.9e307, 3.5},
 		// products at the ends of the int range (exact in float64 in every order)
+		// same-sign elements whose sum lies beyond the float64 range: every order of summation ends at that infinity
+		{1e308, 1e308}, {math.MaxFloat64, math.MaxFloat64}, {-1e308, -1e308, -1e308}, {1e308, 1, 1e308}, {9e307, 9e307, 0, 9e307}, {-math.MaxFloat64, -1, -math.MaxFloat64}, {1.5e308, 3e307, 1e307, 1},
 		{math.MinInt, -1}, {-1, math.MinInt}, {math.MinInt, -1, -1}, {math.MaxInt, -1}, {math.MinInt, 1}, {i64(1 << 31), i64(-(1 << 31)), 2, -1}, {math.MinInt, -1.0}, {-1, -1, math.MinInt, -1},
 		{i64(3037000500), i64(3037000500)}, {i64(-3037000500), i64(3037000500), -1}, {math.MaxInt, math.MaxInt}, {math.MinInt, math.MinInt}, {math.MinInt, 0.5, -2}}
 	c.Cases("pinned", len(pins), true, func(i int, r *rng.R) { c18Numeric(c, pins[i], 1) })
@@ -398,6 +400,25 @@ func c18NumericHist(c *fw.Ctx, l at.List, vals []any, class int, depth int, rr u
 			tolSum = new(big.Rat) // every partial sum is exactly representable: any order gives the exact sum
 		}
 		exactF, _ := exactSum.Float64()
+		if math.IsInf(exactF, 0) && (mn >= 0 || mx <= 0) {
+			// elements of one sign: the partial sums of every order only grow in magnitude and stay within n * 2^-52 of the
+			// exact ones until they leave the range; with the exact sum a thousandth beyond the range every order overflows
+			limit := new(big.Rat).Mul(new(big.Rat).SetFloat64(math.MaxFloat64), big.NewRat(1001, 1000))
+			if new(big.Rat).Abs(exactSum).Cmp(limit) > 0 {
+				c.Count("overflowing_sums_checked")
+				if sum != exactF {
+					c.Violate("aggregate-wrong:Sum", in(), fmt.Sprintf("%v (elements of one sign, the exact sum lies beyond the float64 range)", exactF), fmt.Sprint(sum))
+				}
+				// the mean itself may well be representable: the overflowed sum divided by the count and the true mean are
+				// both accepted, anything else (NaN, the other sign) is not
+				exactAvg := new(big.Rat).Quo(exactSum, new(big.Rat).SetInt64(int64(n)))
+				tolAvg := new(big.Rat).Mul(new(big.Rat).Abs(exactAvg), new(big.Rat).Mul(new(big.Rat).SetInt64(int64(n+1)), twoM52))
+				if avg != exactF && !(!math.IsInf(avg, 0) && !math.IsNaN(avg) && within(avg, exactAvg, tolAvg)) {
+					ea, _ := exactAvg.Float64()
+					c.Violate("aggregate-wrong:Avg", in(), fmt.Sprintf("%v (the overflowed sum divided by the count) or the mean %v", exactF, ea), fmt.Sprint(avg))
+				}
+			}
+		}
 		if !math.IsInf(exactF, 0) {
 			if !within(sum, exactSum, tolSum) {
 				c.Violate("aggregate-wrong:Sum", in(), fmt.Sprintf("%v (exact %s, tolerance %s)", exactF, exactSum.FloatString(3), tolSum.FloatString(6)), fmt.Sprint(sum))
